@@ -9,8 +9,11 @@ use std::fmt::{self, Write as _};
 use std::panic::{AssertUnwindSafe, catch_unwind};
 
 pub const NSLOTS: usize = 8;
+/// inline capacity: two machine words (16 on 64-bit, 8 on 32-bit targets)
+pub const INLINE_CAP: usize = 2 * std::mem::size_of::<usize>();
 pub const RESERVE_MSG: &str = "Cannot allocate memory to hold LeanString";
-pub const MAX_CAP: usize = (1usize << 56) - 1;
+/// largest capacity/length a heap buffer can have (2^56-1 on 64-bit; on 32-bit the limit is the address space)
+pub const MAX_CAP: usize = if usize::BITS >= 64 { ((1u64 << 56) - 1) as usize } else { usize::MAX - 64 };
 
 #[derive(Clone, Copy, PartialEq, Eq, Debug, Hash, PartialOrd, Ord)]
 pub enum Kind {
